@@ -8,6 +8,7 @@ import (
 	"encoding/json"
 	"fmt"
 	"math/big"
+	"sort"
 	"strings"
 	"testing"
 	"time"
@@ -184,6 +185,32 @@ func nameMatches(pattern, host string) bool {
 	return true
 }
 
+// digestResult renders what a VerificationResult says, independent of the order in which the
+// walk delivered the chains (chains as sorted fingerprint lists; the parent fingerprint, which
+// names ONE of possibly several parents, is left out).
+func digestResult(v *verifier.VerificationResult) string {
+	chains := func(l []x509.CertificateChain) string {
+		var out []string
+		for _, ch := range l {
+			s := "["
+			for _, c := range ch {
+				s += fmt.Sprintf("%x ", c.FingerprintSHA256[:6])
+			}
+			out = append(out, s+"]")
+		}
+		sort.Strings(out)
+		return strings.Join(out, "")
+	}
+	var parents []string
+	for _, p := range v.Parents {
+		parents = append(parents, fmt.Sprintf("%x", p.FingerprintSHA256[:6]))
+	}
+	sort.Strings(parents)
+	return fmt.Sprintf("name=%q wl=%v bl=%v rev=%v valErr=%v nameErr=%v parents=%v current=%s expired=%s never=%s atexp=%s type=%v expired=%v",
+		v.Name, v.Whitelisted, v.Blacklisted, v.InRevocationSet, v.ValidationError, v.NameError, parents, chains(v.CurrentChains), chains(v.ExpiredChains),
+		chains(v.NeverValidChains), chains(v.ValidAtExpirationChains), v.CertificateType, v.Expired)
+}
+
 func check(c Case, r *kit.R) {
 	n := len(c.U.Certs)
 	if n == 0 || c.Cert < 0 || c.Cert >= n {
@@ -248,11 +275,22 @@ func check(c Case, r *kit.R) {
 
 	// W: the chains the graph walk finds (decided by C11)
 	W := g.WalkChains(in.Parse())
-	var res *verifier.VerificationResult
-	gr := kit.Guard(func() { res = verifier.NewVerifier(g, nil).Verify(in.Parse(), opts) })
+	// one Verifier for several queries, as a long-running service has: a query for another
+	// certificate first, then the certificate under test twice; the two results must agree and
+	// the first of them is the one held against the walked chains below
+	var res, res2 *verifier.VerificationResult
+	gr := kit.Guard(func() {
+		v := verifier.NewVerifier(g, nil)
+		_ = v.Verify(infos[(c.Cert+1)%n].Parse(), opts)
+		res = v.Verify(in.Parse(), opts)
+		res2 = v.Verify(in.Parse(), opts)
+	})
 	r.Must(gr, "Verifier.Verify")
-	if res == nil {
+	if res == nil || res2 == nil {
 		r.Failf("C12:nil-result", "Verify returned nil")
+	}
+	if a, b := digestResult(res), digestResult(res2); a != b {
+		r.Failf("C12:verifier-reuse", "two consecutive Verify calls of one Verifier for the same certificate and options differ:\n%s\n%s", a, b)
 	}
 
 	// --- date partition (windows from the generator's descriptions, in ms)
